@@ -84,7 +84,12 @@ func (watcher *RequestWatcher) StopAll() {
 	defer watcher.requestsMapMutex.RUnlock()
 
 	for _, request := range watcher.requests {
-		request.SetProcessedTimeout()
+		// Only release requests that are still waiting: a request that was already
+		// answered (and is not yet removed from the watch list) or that is being
+		// answered right now must not be signalled a second time.
+		if request.StartProcessing() {
+			request.SetProcessedTimeout()
+		}
 	}
 }
 
